@@ -119,3 +119,14 @@ Theorem params_match : forall t0 groups ops o,
     Forall (fun r => r_up r = Z.max (s_up s) 0 /\ r_comp r = Z.max (s_comp s) 0 /\ r_left r = s_left s) new.
 Proof. exact Proofs.params_match. Qed.
 Print Assumptions params_match.
+
+(* tracker identities are unique in every reachable state: the model's lookups by id address exactly
+   the tracker the code's handle points to *)
+Theorem ids_unique : forall t0 groups ops, NoDup (map t_id (trs (run (init t0 groups) ops))).
+Proof. exact Proofs.ids_unique. Qed.
+Print Assumptions ids_unique.
+
+Theorem find_id_exact : forall t0 groups ops t,
+  In t (trs (run (init t0 groups) ops)) -> find_id (trs (run (init t0 groups) ops)) (t_id t) = Some t.
+Proof. exact Proofs.find_id_exact. Qed.
+Print Assumptions find_id_exact.
